@@ -64,6 +64,7 @@ package predicate
 //@ props C05
 //@ axiom pstr-def: forall p *Predicate :: {pstr(p)} pstr(p) == predText(p.id, p.anchor != nil, deref(p.anchor))
 //@ func (p *Predicate) String
+//@   heapfun
 //@   opt axioms pstr-def
 //@   requires p != nil
 //@   ensures[text] result == predText(p.id, p.anchor != nil, deref(p.anchor))
